@@ -49,6 +49,10 @@ def gen_case(rng, tier):
         flags.append("igntc")
     cfg = "servers=%d tries=%d timeout=%d maxtimeout=%d idseq=%d qcachettl=0 seed=%d" % (
         S, T, rng.choice([250, 500, 2000]), M, rng.choice([1, 100, 65530]), rng.randint(1, 10 ** 6))
+    if S > 1 and rng.random() < 0.2:
+        # make ares_probe_failed_server() likely: a probe copy of a fresh query (under its own id)
+        # goes to a server marked failed as soon as its retry delay has passed
+        cfg += " failover=%d,%d" % (rng.choice([1, 1, 2]), rng.choice([1, 100, 1000]))
     if flags:
         cfg += " flags=" + ",".join(flags)
     ops = []
